@@ -268,6 +268,14 @@ class RouterAnalysis:
                             elif okf is False: self.add('RT.3', False, f'{short} row {row}: the counts of all children are summed', e0.site, why_, key='RT.3|sum')
                             else: self.add('RT.3', None, f'{short} row {row}: fan-out under a regex level', e0.site, 'the fan-out is a std::accumulate whose range / initial value / step is not in the recognised form')
                             continue
+                        if not rec and not iters and not any(c_ is not None and c_.id in conds for c_, _v, _h in P.decisions):
+                            # the path returns without ever reaching the loop over the children
+                            about_children = [c_ for c_, _v, _h in P.decisions if c_ is not None and 'm_children' in (c_.text() or '')]
+                            pc = '; '.join(f'{(c_.text() or "")[:50]} = {_v}' for c_, _v, _h in P.decisions if c_ is not None)[:200]
+                            if about_children: self.add('RT.3', None, f'{short} row {row}: every child is visited under a regex level', f.shortloc(), f'the path leaves before the loop over the children after looking at m_children ({pc}): not followed')
+                            else: self.add('RT.3', False, f'{short} row {row}: every child is visited under a regex level', f.shortloc(),
+                                           f'the node returns {P.ret} without visiting its children although it matches and the next level is a pattern (path: {pc}): every key below this node is cut off from the delivery and the returned count is too low', key='RT.3|regex-all')
+                            continue
                         ok = not leafn and len(rec) == iters
                         why = ''
                         if len(rec) != iters: why = f'{len(rec)} recursive call(s) for {iters} child(ren) under a regex level: a child is skipped before the pattern is matched against it — keys below it are not reached and the returned count is too low'
@@ -842,6 +850,24 @@ class RouterAnalysis:
             if f['name'] == 'm_children' and not re.search(r'\bmap<', f['ctype']): return f['ctype']
         return None
 
+    def ordered_children(self):
+        """children kept in a sequence and found by binary search: the order by name is what the lookups rely on, so nothing may permute
+        the sequence.  An unstable reordering algorithm applied to m_children is a witness (SH.3: survivors are no longer found)."""
+        fns = [f for f in self.facts.fns if f.d.get('class') == NODE]
+        def on_children(n): return any(x.is_field('m_children') for a in n.ns('args') if a is not None for x in a.walk())
+        searches = [n for f in fns for n in f.nodes() if n.k == 'call' and strip_targs(n.calleeq or '').split('::')[-1] in ('lower_bound', 'upper_bound', 'binary_search', 'equal_range') and on_children(n)]
+        if not searches: return
+        PERMUTE = ('partition', 'reverse', 'rotate', 'shuffle', 'random_shuffle', 'nth_element', 'iter_swap', 'swap_ranges', 'next_permutation', 'prev_permutation', 'make_heap', 'push_heap', 'pop_heap', 'sort_heap')
+        seen = set()
+        for f in fns:
+            for n in f.nodes():
+                if n.k == 'call' and (n.calleeq or '').startswith('std::') and strip_targs(n.calleeq or '').split('::')[-1] in PERMUTE and on_children(n):
+                    if f.gname in seen: continue
+                    seen.add(f.gname)
+                    self.add('SH.3', False, f'{f.name[:60]}: the children stay ordered by name (they are found by {strip_targs(searches[0].calleeq).split("::")[-1]} at {searches[0].shortloc()})', n.shortloc(),
+                             f'`{n.text()[:40]}` permutes m_children without regard to the order the lookups rely on ({strip_targs(n.calleeq).split("::")[-1]} is not order-preserving): the children that are kept are no longer sorted by name, '
+                             f'a later notify / exists / subscribe with a concrete key misses nodes that are still stored', key=f'SH.3|permute|{f.gname}')
+
     def run(self, which):
         cm = self.children_model()
         if cm is not None:
@@ -852,6 +878,7 @@ class RouterAnalysis:
                 for r in ('RT.3', 'RT.5'): self.add(r, None, 'Node: children model', loc, why)
             if 'C13' in which:
                 for r in ('SH.1', 'SH.2', 'SH.3', 'SH.4'): self.add(r, None, 'Node: children model', loc, why)
+                self.ordered_children()
             if 'C11' in which: self.concurrent_rules()
             return
         if 'C06' in which:
